@@ -1,8 +1,11 @@
 package op
 
 import (
+	"sort"
+
 	"github.com/berquerant/crd/errorx"
 	"github.com/berquerant/crd/note"
+	"gopkg.in/yaml.v3"
 )
 
 type Instance struct {
@@ -28,6 +31,38 @@ func (i Instance) Validate() error {
 }
 
 type Meta map[string]string
+
+// MarshalYAML writes the entries sorted by key. The order yaml.v3 gives to
+// the keys of a map is not total (digit runs that overflow int64, digits of
+// other scripts), so some key sets were printed differently from run to run.
+func (m Meta) MarshalYAML() (any, error) {
+	keys := make([]string, 0, len(m))
+	for k := range m {
+		keys = append(keys, k)
+	}
+	sort.Strings(keys)
+	n := &yaml.Node{Kind: yaml.MappingNode}
+	for _, k := range keys {
+		kn, err := metaScalar(k)
+		if err != nil {
+			return nil, err
+		}
+		vn, err := metaScalar(m[k])
+		if err != nil {
+			return nil, err
+		}
+		n.Content = append(n.Content, kn, vn)
+	}
+	return n, nil
+}
+
+func metaScalar(s string) (*yaml.Node, error) {
+	var n yaml.Node
+	if err := n.Encode(s); err != nil {
+		return nil, err
+	}
+	return &n, nil
+}
 
 func (m Meta) Get(key string) string {
 	return m[key]
